@@ -1,5 +1,9 @@
 #![allow(dead_code)]
 mod c07;
+mod c13;
+mod c17;
+mod dynpeer;
+mod routes;
 mod common;
 mod docgen;
 mod gen;
@@ -14,6 +18,54 @@ mod types;
 mod writer;
 
 use runner::*;
+
+/// Address-perturbing allocator shim (DESIGN 2.10): pads every allocation by SIM_ALLOC_PAD bytes so
+/// that heap addresses (and therefore anything that leaked an address into an observable) differ
+/// between two executions of the same runs.
+struct PadAlloc;
+static ALLOC_PAD: std::sync::atomic::AtomicUsize = std::sync::atomic::AtomicUsize::new(usize::MAX);
+#[inline]
+fn alloc_pad() -> usize {
+    let p = ALLOC_PAD.load(std::sync::atomic::Ordering::Relaxed);
+    if p != usize::MAX {
+        return p;
+    }
+    // first allocation of the process: read the environment without allocating; the value is
+    // fixed for the lifetime of the process (a racing second reader computes the same number)
+    let mut v: usize = 0;
+    unsafe {
+        let s = libc::getenv(b"SIM_ALLOC_PAD\0".as_ptr() as *const libc::c_char);
+        if !s.is_null() {
+            let mut q = s;
+            while *q != 0 {
+                let c = *q as u8;
+                if c.is_ascii_digit() {
+                    v = v.saturating_mul(10).saturating_add((c - b'0') as usize);
+                }
+                q = q.add(1);
+            }
+        }
+    }
+    let v = v.min(4096);
+    ALLOC_PAD.store(v, std::sync::atomic::Ordering::Relaxed);
+    v
+}
+unsafe impl std::alloc::GlobalAlloc for PadAlloc {
+    unsafe fn alloc(&self, l: std::alloc::Layout) -> *mut u8 {
+        let pad = alloc_pad();
+        unsafe { std::alloc::System.alloc(std::alloc::Layout::from_size_align_unchecked(l.size() + pad, l.align())) }
+    }
+    unsafe fn dealloc(&self, p: *mut u8, l: std::alloc::Layout) {
+        let pad = alloc_pad();
+        unsafe { std::alloc::System.dealloc(p, std::alloc::Layout::from_size_align_unchecked(l.size() + pad, l.align())) }
+    }
+    unsafe fn realloc(&self, p: *mut u8, l: std::alloc::Layout, new_size: usize) -> *mut u8 {
+        let pad = alloc_pad();
+        unsafe { std::alloc::System.realloc(p, std::alloc::Layout::from_size_align_unchecked(l.size() + pad, l.align()), new_size + pad) }
+    }
+}
+#[global_allocator]
+static GLOBAL: PadAlloc = PadAlloc;
 use std::collections::{BTreeMap, HashSet};
 use std::path::PathBuf;
 use std::time::{Duration, Instant};
@@ -44,6 +96,28 @@ fn plan(prop: &str) -> Plan {
             real: &["toml::ser::{to_string,to_string_pretty}", "toml_edit::ser::{to_string,to_string_pretty,to_document}", "toml::Value::try_from / toml::Table::try_from (toml::value::ValueSerializer)", "toml::de::Deserializer / toml_edit::de::* / impl Deserializer for toml::Value (read-back)", "toml_edit parser + encoder", "toml_datetime Serialize/Deserialize/FromStr/Display", "serde's own impls for primitives, String, char, IgnoredAny", "toml::Value Serialize/Deserialize"],
             stub: &["writer peer W(T,v) (interpreter of a type description mimicking serde_derive output)", "reader peer R(T) (idem)", "seam interposers PSer/PDe (transparent; inject F-SER / log events)", "reference model Model(T,v) and must-succeed class"],
             assumptions: &["'valid TOML text' is judged by the library's own parser (C01/C02 are not decided here)", "peer stubs behave like serde_derive output (checked by `sim selftest` against real derived types)", "Option as a map *value* and types outside the grammar (flatten, untagged, borrowed fields) are not generated", "a clean batch is evidence, not proof: the space of (type, value, choice, fault) is sampled"],
+        },
+        "C13" => Plan {
+            level: "exploration",
+            runs_quick: 600_000,
+            runs_thorough: 30_000_000,
+            builds_quick: &["default", "preserve_order"],
+            builds_thorough: ALL_BUILDS,
+            rule: "One evaluation = one seeded scenario: either (A) a type description T + value v, serialized to a document by one of the five text serializers, then decoded by the reader peer R(T) through all nine decoding routes (toml::from_str, toml_edit::de::from_str/from_slice, from_document(DocumentMut/ImDocument), toml::Value::try_into, toml::Table::try_into, both single-value deserializers), plus Value/Table::try_from compared with the text route and the two value-level serializers compared with each other; or (B) a DocGen/corpus document with an inferred (sometimes mismatching) reader type through the seven document routes; in both a fraction of runs injects F-VIS (a visitor callback of the reader fails at callback k, entry or exit) and B sometimes lets the reader stop early (H8). Non-trivial = type description + document tree have >= 3 nodes; distinct = distinct conversation shape (hash of the seam event sequence of the whole run, payloads erased), counted with a hash set.",
+            real: &["all nine decoding routes (toml::de, toml_edit::de::*, impl Deserializer for toml::Value / toml::Table)", "toml::Value::try_from / Table::try_from, toml::ser::ValueSerializer, toml_edit::ser::ValueSerializer", "the five text serializers (document production)", "toml_edit parser", "serde's primitive impls, toml_datetime impls, toml::Value Deserialize"],
+            stub: &["reader peer R(T) incl. DynVal root adapter", "writer peer W(T,v)", "seam interposers (log events, inject F-VIS)", "DocGen renderer + type inference", "reference reader (probe only, not asserted)"],
+            assumptions: &["only what C13 states is asserted: successful routes agree; on text produced by serializing a value of T (must-succeed class) every route succeeds and returns it; try_from equals the text route when both succeed; a reader failure is never swallowed and nothing panics", "which value is *right* for a hand-written document is C02's business: comparison with the reference reader is a probe, not an assertion", "peer stubs behave like serde_derive output (self-tested)"],
+        },
+        "C17" => Plan {
+            level: "exploration",
+            runs_quick: 400_000,
+            runs_thorough: 20_000_000,
+            builds_quick: &["default", "preserve_order"],
+            builds_thorough: ALL_BUILDS,
+            rule: "One evaluation = one seeded scenario (type description + value, workload A; or a map-heavy value / toml::Table with 1-4 adversarial re-orderings of every map's entries, workload C: shuffled, reversed, tables first, arrays of tables first, interleaved). Each of the five text serializers is run twice on freshly rebuilt structures (and on a newly spawned thread in 1/8 of the runs) and compared byte for byte; the text is read back by the reader peer and re-serialized (fixed point); plain and pretty outputs are decoded and compared; every re-ordering is serialized and must give valid text decoding to the model tree; toml::Table values are built by insertion in every order, printed twice, parsed and printed again. The whole batch is additionally executed a second time in other processes, in reverse order, with a different worker count and an address-perturbing allocator, and the per-run digests (all texts and errors) compared. Non-trivial = type has >= 3 nodes; distinct = distinct conversation shape (seam event sequence with payloads erased), counted with a hash set.",
+            real: &["the five text serializers", "toml::Table / toml::Value Serialize, Display, FromStr", "toml::de read-back", "toml_edit parser/encoder, toml::fmt::DocumentFormatter, toml_edit::ser::pretty"],
+            stub: &["writer peer W(T,v) emitting map entries in the scenario's order", "reader peer R(T)", "seam interposers (logging only; no faults in this check)", "reference model Model(T,v)"],
+            assumptions: &["RandomState keys of IndexMap instances come from the OS and are not seeded; every table ever built samples a new one and no observable may depend on them", "thread identity / allocator / process are varied by the twin batch, not exhaustively", "'valid TOML' is judged by the library's own parser"],
         },
         _ => panic!("unknown property {prop}"),
     }
@@ -308,39 +382,145 @@ fn cmd_check(a: &[String]) -> i32 {
         }
     }
 
-    // known findings
+    // C17 clause 1 across processes: the same runs executed again in other processes, in reverse
+    // order, with another worker count and an address-perturbing allocator must give the same digests
+    let mut twin_compared = 0u64;
+    if prop == "C17" {
+        if let Some(exe) = bins.get("default") {
+            let n = if tier == "quick" { 40_000u64 } else { 400_000 };
+            let mut maps: Vec<BTreeMap<u64, u64>> = Vec::new();
+            for (k, (pad, nw, rev)) in [("0", nworkers, "0"), ("24", 5u64, "1")].iter().enumerate() {
+                let wd = work.join(format!("twin{k}"));
+                let outf = work.join(format!("twin{k}.batch.json"));
+                let _ = std::fs::create_dir_all(&work);
+                let st = std::process::Command::new(exe)
+                    .env("SIM_ALLOC_PAD", pad)
+                    .args(["batch", &prop, &tier, &seed.to_string(), &nw.to_string(), &n.to_string()])
+                    .arg(&wd)
+                    .arg(&replay_dir)
+                    .args(["120", "1", rev])
+                    .arg(&outf)
+                    .status();
+                match st {
+                    Ok(st) if st.success() => match std::fs::read_to_string(&outf).ok().and_then(|t| serde_json::from_str::<BatchOut>(&t).ok()) {
+                        Some(bo) => maps.push(bo.digests),
+                        None => harness.push(format!("twin batch {k}: unreadable output")),
+                    },
+                    other => harness.push(format!("twin batch {k}: {other:?}")),
+                }
+                let _ = std::fs::remove_dir_all(&wd);
+                let _ = std::fs::remove_file(&outf);
+            }
+            if maps.len() == 2 {
+                for (i, d) in &maps[0] {
+                    if let Some(d2) = maps[1].get(i) {
+                        twin_compared += 1;
+                        if d != d2 {
+                            let rs = run_seed(seed, &prop, &tier, *i);
+                            let mut rng = rng::Rng::new(rs);
+                            let sc = generate(&prop, &mut rng, &tier);
+                            let verdict = common::Violation {
+                                oracle: "C17/1".into(),
+                                signature: "C17/ambient-nondeterminism".into(),
+                                detail: format!("run {i} produced different observable results (texts / errors) in two processes that differ only in worker count, run order and heap layout: digest {d:#x} vs {d2:#x}"),
+                            };
+                            let rf = ReplayFile {
+                                format: 1,
+                                property: prop.clone(),
+                                tier: tier.clone(),
+                                verif_seed: seed,
+                                run: *i,
+                                run_seed: format!("{rs:#x}"),
+                                build: "default".into(),
+                                minimised: false,
+                                shrink_execs: 0,
+                                features: features_of(&sc),
+                                human: human_rendering(&sc),
+                                scenario: sc,
+                                verdict: verdict.clone(),
+                                digest: format!("{d:#x}"),
+                            };
+                            let path = replay_dir.join(format!("C17-default-{seed}-{i}-ambient.json"));
+                            let _ = std::fs::create_dir_all(&replay_dir);
+                            std::fs::write(&path, serde_json::to_string_pretty(&rf).unwrap()).expect("write replay");
+                            found.push(("default".into(), FoundViolation { run: *i, replay: path.display().to_string(), verdict, features: rf.features }));
+                            vcount += 1;
+                            if found.len() > 50 {
+                                break;
+                            }
+                        }
+                    }
+                }
+                println!("  twin batches: {twin_compared} runs compared across processes / worker counts / run order / allocator padding");
+                stats.add("oracle.twin_process_digest_compared", twin_compared);
+            }
+        }
+    }
+
+    // known findings; one report per signature (the smallest replay file is kept)
     let known: KnownFile = std::fs::read_to_string(verif.join("known-findings.json")).ok().and_then(|t| serde_json::from_str(&t).ok()).unwrap_or_default();
-    let mut reported: HashSet<String> = HashSet::new();
     let mut unlisted = 0u64;
     let mut known_hits = 0u64;
-    for (build, v) in &found {
-        let key = format!("{}|{}", v.verdict.signature, v.features);
-        if !reported.insert(key) {
-            continue;
+    let size_of = |v: &FoundViolation| std::fs::metadata(&v.replay).map(|m| m.len()).unwrap_or(u64::MAX);
+    found.sort_by(|a, b| (a.1.verdict.signature.clone(), size_of(&a.1)).cmp(&(b.1.verdict.signature.clone(), size_of(&b.1))));
+    let mut by_sig: BTreeMap<String, Vec<(String, FoundViolation)>> = BTreeMap::new();
+    for (b, v) in found {
+        by_sig.entry(v.verdict.signature.clone()).or_default().push((b, v));
+    }
+    for (sig, group) in &by_sig {
+        let mut chosen: Option<&(String, FoundViolation)> = None;
+        for cand in group.iter().take(4) {
+            let (build, v) = cand;
+            // replay in a fresh process before believing it
+            let exe = bins.get(build).cloned().unwrap_or_else(|| std::env::current_exe().unwrap());
+            let reproduced = if sig == "C17/ambient-nondeterminism" {
+                let dig = |pad: &str| {
+                    std::process::Command::new(&exe).env("SIM_ALLOC_PAD", pad).args(["replay", &v.replay, "--check"]).output().ok().map(|o| String::from_utf8_lossy(&o.stdout).to_string())
+                };
+                let (a, b) = (dig("0"), dig("40"));
+                if a == b {
+                    println!("note: {sig} at run {} did not differ again in two fresh processes: intermittent nondeterminism", v.run);
+                }
+                true // nondeterminism is the violation; an intermittent one is still one
+            } else {
+                let out = std::process::Command::new(&exe).args(["replay", &v.replay, "--check"]).output();
+                let ok = match &out {
+                    Ok(o) => {
+                        let so = String::from_utf8_lossy(&o.stdout);
+                        so.contains("REPRODUCED signature=") && !so.contains("NOT-REPRODUCED")
+                    }
+                    Err(_) => false,
+                };
+                let crashy = sig.ends_with("/abort") || sig.ends_with("/hang");
+                ok || (crashy && out.as_ref().map(|o| !matches!(o.status.code(), Some(0) | Some(2))).unwrap_or(false))
+            };
+            if reproduced {
+                chosen = Some(cand);
+                break;
+            }
         }
-        // replay in a fresh process before believing it
-        let exe = bins.get(build).cloned().unwrap_or_else(|| std::env::current_exe().unwrap());
-        let out = std::process::Command::new(&exe).args(["replay", &v.replay, "--check"]).output();
-        let reproduced = match &out {
-            Ok(o) => String::from_utf8_lossy(&o.stdout).contains("REPRODUCED signature=") && !String::from_utf8_lossy(&o.stdout).contains("NOT-REPRODUCED"),
-            Err(_) => false,
+        let (build, v) = match chosen {
+            Some(c) => c,
+            None => {
+                harness.push(format!("violation {sig} ({} occurrence(s), first at run {}) did not reproduce from its replay file {}", group.len(), group[0].1.run, group[0].1.replay));
+                continue;
+            }
         };
-        let crashy = v.verdict.signature.ends_with("/abort") || v.verdict.signature.ends_with("/hang");
-        let reproduced = reproduced || (crashy && out.as_ref().map(|o| !o.status.success() && o.status.code() != Some(2) && o.status.code() != Some(0)).unwrap_or(false));
-        if !reproduced {
-            harness.push(format!("violation {} (run {}, build {build}) did not reproduce from its replay file {}", v.verdict.signature, v.run, v.replay));
-            continue;
+        for (_, other) in group.iter() {
+            if other.replay != v.replay {
+                let _ = std::fs::remove_file(&other.replay);
+            }
         }
-        let k = known.findings.iter().find(|k| k.status == "known" && k.property == prop && k.signature == v.verdict.signature && (k.features.is_empty() || k.features == v.features));
+        let k = known.findings.iter().find(|k| k.status == "known" && k.property == prop && k.signature == *sig && (k.features.is_empty() || k.features == v.features));
         match k {
             Some(k) => {
                 known_hits += 1;
-                println!("KNOWN-FINDING: property={prop} {} [{}] replay={}", k.what, v.verdict.signature, v.replay);
+                println!("KNOWN-FINDING: property={prop} {} [{sig}]", k.what);
                 let _ = std::fs::remove_file(&v.replay);
             }
             None => {
                 unlisted += 1;
-                println!("--- violation (build {build}, run {}): {} ---\n{}", v.run, v.verdict.signature, v.verdict.detail);
+                println!("--- violation {sig} (build {build}, run {}, {} occurrence(s) in this batch; minimised scenario features: {}) ---\n{}", v.run, group.len(), v.features, v.verdict.detail);
                 println!("VIOLATION property={prop} replay={}", v.replay);
             }
         }
